@@ -53,7 +53,7 @@ impl Property for C04 {
         "C04"
     }
     fn rule(&self) -> &'static str {
-        "Seeded shaders with 1-8 dense groups, 1-6 bindings per group at sparse/unordered/extreme @binding indices, declaration order shuffled across groups, 22 resource kinds (uniform/storage buffers, sampled/depth/multisampled/storage textures, samplers), look-alike names (x1/x10/x1_), plus shaders without any binding; oracle = naga module: BindGroupLayout{g} has exactly one field per variable of the group with the type of its resource class, from_bindings passes bindings.x to binding = @binding(x) with the matching BindingResource constructor and supplies exactly the indices of LAYOUT_DESCRIPTOR{g}, uses that descriptor, set() binds at index g once, set_bind_groups / BindGroups::set call each group's set once, the three SetBindGroup impls forward (index, bind_group, offsets), create_pipeline_layout lists BindGroup0..n-1 layouts in order."
+        "Seeded shaders with 1-8 dense groups (every 24th case: 11-16 groups of 1-2 bindings, i.e. two-digit group indices), 1-6 bindings per group at sparse/unordered/extreme @binding indices, declaration order shuffled across groups, 22 resource kinds (uniform/storage buffers, sampled/depth/multisampled/storage textures, samplers), look-alike names (x1/x10/x1_), plus shaders without any binding; oracle = naga module: BindGroupLayout{g} has exactly one field per variable of the group with the type of its resource class, from_bindings passes bindings.x to binding = @binding(x) with the matching BindingResource constructor and supplies exactly the indices of LAYOUT_DESCRIPTOR{g}, uses that descriptor, set() binds at index g once, set_bind_groups / BindGroups::set call each group's set once, the three SetBindGroup impls forward (index, bind_group, offsets), create_pipeline_layout lists BindGroup0..n-1 layouts in order."
     }
 
     fn cases(&self, seed: u64, tier: Tier) -> Vec<Case> {
@@ -62,8 +62,16 @@ impl Property for C04 {
         out.push(Case::new("no-bindings", "@compute @workgroup_size(1)\nfn main() {}\n", Params::default()));
         for i in 0..n {
             let mut rng = Rng::new(seed, 0xC04_0000 + i as u64);
-            let n_groups = if i % 10 == 0 { 8 } else { rng.range(1, 8) as u32 };
-            let slots = gen::slots(n_groups, if i % 7 == 0 { 12 } else { 6 }, &mut rng);
+            // two-digit group indices ("BindGroup10" sorts before "BindGroup2" as text): 11-16 small dense groups
+            let many = i % 24 == 10;
+            let n_groups = if many {
+                rng.range(11, 16) as u32
+            } else if i % 10 == 0 {
+                8
+            } else {
+                rng.range(1, 8) as u32
+            };
+            let slots = gen::slots(n_groups, if many { 2 } else if i % 7 == 0 { 12 } else { 6 }, &mut rng);
             let mut s = String::new();
             for sl in &slots {
                 s.push_str(&sl.decl());
